@@ -41,6 +41,8 @@ type Pool struct {
 	SlowRetries int64 // cases that hit the watchdog in a batch and completed when re-run alone
 	Timeouts    int64
 	Requests    int64
+	PeakRSSMB   int64 // largest resident set any worker reported
+	LongRetry   bool  // checks with genuinely heavy inputs: a case that hits the 20 s watchdog alone is run once more with 5 minutes
 }
 
 func New(bin, dir string, n int) *Pool {
@@ -161,6 +163,12 @@ func (p *Pool) DoT(req Req, timeout time.Duration) Resp {
 			w.cmd = nil
 			return Resp{ID: req.ID, Kind: "died", Stderr: st + "\n" + se}
 		}
+		for {
+			cur := atomic.LoadInt64(&p.PeakRSSMB)
+			if int64(r.resp.PeakRSSMB) <= cur || atomic.CompareAndSwapInt64(&p.PeakRSSMB, cur, int64(r.resp.PeakRSSMB)) {
+				break
+			}
+		}
 		return r.resp
 	case <-time.After(timeout):
 		atomic.AddInt64(&p.Timeouts, 1)
@@ -217,7 +225,7 @@ func (p *Pool) Batch(reqs []Req) []Resp {
 	out := make([]Resp, len(reqs))
 	for i := range reqs {
 		out[i] = p.DoT(reqs[i], 20*time.Second)
-		if out[i].Kind == "timeout" {
+		if out[i].Kind == "timeout" && p.LongRetry {
 			// the watchdog is wall clock: on a loaded machine a heavy case can simply be slow.
 			// Run it alone once more with a generous budget; only a case that does not come
 			// back within that either is reported as a timeout (logical hangs are caught by
